@@ -40,3 +40,13 @@ for sid in a.ids:
         (V / 'seeded' / sid / f'result_{c}_{a.tier}.txt').write_text(p.stdout[-20000:])
     sh(f'git -C /repo worktree remove --force {wt}')
 json.dump(out, open('/tmp/eval_seeded_last.json', 'w'), indent=1)
+# committed summary of every evaluation ever run (latest result per change/check wins)
+rp = V / 'seeded' / 'RESULTS.json'
+allr = json.loads(rp.read_text()) if rp.exists() else {}
+for k, v in out.items():
+    if isinstance(v, dict):
+        v['tier'] = a.tier
+        v['only'] = a.only
+        v['detected'] = v['exit'] == 1 and bool(v['violations'])
+    allr[k] = v
+rp.write_text(json.dumps(allr, indent=1, sort_keys=True))
